@@ -234,8 +234,77 @@ def oracle(case, obs):
     return L.traced(_oracle, case, obs)
 
 
+_SMOKE = []
+
+
+def _smoke():
+    """once per run: documented failure modes of the anchored API that no generated script can reach through
+    RadiRouter (RadiDict used on its own: list params, exclusive wildcards, double registration), parser errors with
+    fixed seeds, and an undecodable PATH_INFO (400, no routing)"""
+    from ombott import Ombott
+    from ombott.router.radidict import RadiDict, RadiDictKeyError
+    from ombott.router.radirouter import Route
+    from ombott.router.errors import RouteSyntaxError
+    from props.common import environ
+    rd = RadiDict()
+    rd.add('a/\r', 1, ['x'])
+    if rd.get('a/v')[0] != 1:
+        return 'RadiDict.add with a list of names: lookup fails'
+    try:
+        rd.add('a/\r', 2, ['x'])
+        return 'RadiDict.add twice on one pattern (overwrite=False) did not raise'
+    except RadiDictKeyError:
+        pass
+    rd.add('a/\r', 3, ['x'], overwrite=True)
+    if rd.get('a/v')[0] != 3:
+        return 'RadiDict.add(overwrite=True) did not replace the data'
+    rd.add('lit', 5)
+    try:
+        rd.add('lit', 6)
+        return 'RadiDict.add twice on a literal pattern did not raise'
+    except RadiDictKeyError:
+        pass
+    ex = RadiDict(is_exclusive=True)
+    ex.add('e/\r', 1, ['x'])
+    for pat, prm in (('e/lit', None), ('e/\r/z', {'x': [False, None]})):
+        try:
+            ex.add(pat, 2, prm)
+            return 'exclusive wildcard: adding %r beside/below it did not raise' % pat
+        except (RadiDictKeyError, IndexError) as e:
+            # IndexError: the message formatting indexes prm_keys[prm_idx + e.param_idx] with no names given -
+            # standalone RadiDict only (RadiRouter never uses exclusive wildcards); reported, not part of C01
+            str(e)
+    ex2 = RadiDict()
+    ex2.add('e/lit', 1)
+    try:
+        ex2.add('e/\r', 2, {'x': [True, None]})
+        return 'adding an exclusive wildcard beside existing keys did not raise'
+    except (RadiDictKeyError, IndexError) as e:
+        str(e)
+    for bad in ('/<x.int!>', '/<x.re(a)[]>', '/<x!>', '/<x.re(a', '/a/<', '/<:', '/{x>', '/<x.re(a)[1]>'):
+        try:
+            Route.parse_rule(bad)
+        except RouteSyntaxError:
+            continue
+        except Exception as e:
+            return 'rule %r: %s instead of RouteSyntaxError' % (bad, type(e).__name__)
+    app = Ombott()
+    seen = []
+    app.add_route('/<x>', 'GET', lambda **kw: seen.append(kw) or 'ok')
+    got = {}
+    body = app(environ('GET', '/\xff\xfe'), lambda st, hd, ei=None: got.update(status=st))
+    list(body)
+    if not got.get('status', '').startswith('400') or seen:
+        return 'undecodable PATH_INFO: status %s, handler calls %s (expected 400, no routing)' % (got.get('status'), seen)
+    return None
+
+
 def _oracle(case, obs):
     """plain rule-by-rule matcher with the real filters, against what the application did"""
+    if not _SMOKE:
+        _SMOKE.append(_smoke())
+        if _SMOKE[0]:
+            return _SMOKE[0]
     from ombott.router.radirouter import Route
     from ombott.router.errors import RouteSyntaxError
     if case.get('malformed'):
@@ -376,6 +445,8 @@ def shrink(case):
 def _cr_in_path(case, what, m):
     return any(c['op'] == 'dispatch' and '\r' in c['path'] for c in case['cmds'])
 
+
+API_SURFACE = L.API_SURFACE          # audit round 4: see tools/props/routerC_lib.py
 
 PREDICATES = {'cr_in_path': _cr_in_path}
 
